@@ -322,6 +322,8 @@ func c07Run(c *Ctx) {
 
 	// (v),(iv) through the CLI: streams with a bad line first / middle / last; deep ladders; long lines
 	c07CLI(c)
+	// long histories of one kind of damaged line
+	badLineHistories(c, "C07")
 }
 
 func c07FirstBytes(c *Ctx) {
@@ -608,7 +610,7 @@ func stripNeighbours(out, s1, s2 string, pos int) (string, bool) {
 func init() {
 	register(&PropDef{
 		ID: "C07", Level: "exploration",
-		Rule:        "(i) all byte strings of length 1 and 2 and all 3-byte strings over a 31-symbol JSON-structural alphabet; top-level values of every token class and legacy text lines; (ii) every truncation and every single-byte edit (deletion or substitution by one of 12 structural bytes) at every offset of the seed lines (one per grammar slot; quick: 8 seeds); (iii) every vocabulary path x 53 value kinds (incl. number/null/bool/array/document under $date, $oid, $binary.base64, $binary) x 5 tree shapes x 10 placements; (iv) nesting ladders up to depth 3 000 in-process and 20 000 through the CLI; (v) each bad-line class first/middle/last in a 3-line stream through the CLI, lines of 65 000 … 1 MiB bytes; flag sets incl. field-name, selective and encrypt modes. Oracle: no panic, <=1 well-formed output line, neighbours unaffected, over-long lines rejected explicitly. distinct = distinct lines / (seed, offset) pairs / CLI scenarios" + scaleRule + "; (ix) every 2-byte prefix (65 536) in front of a 3-line stream through the reader and plain-file entry points, and file signatures + 768 prefixes through the CLI as file and on stdin",
+		Rule:        "(i) all byte strings of length 1 and 2 and all 3-byte strings over a 31-symbol JSON-structural alphabet; top-level values of every token class and legacy text lines; (ii) every truncation and every single-byte edit (deletion or substitution by one of 12 structural bytes) at every offset of the seed lines (one per grammar slot; quick: 8 seeds); (iii) every vocabulary path x 53 value kinds (incl. number/null/bool/array/document under $date, $oid, $binary.base64, $binary) x 5 tree shapes x 10 placements; (iv) nesting ladders up to depth 3 000 in-process and 20 000 through the CLI; (v) each bad-line class first/middle/last in a 3-line stream through the CLI, lines of 65 000 … 1 MiB bytes; flag sets incl. field-name, selective and encrypt modes. Oracle: no panic, <=1 well-formed output line, neighbours unaffected, over-long lines rejected explicitly. distinct = distinct lines / (seed, offset) pairs / CLI scenarios" + scaleRule + "; (ix) every 2-byte prefix (65 536) in front of a 3-line stream through the reader and plain-file entry points, and file signatures + 768 prefixes through the CLI as file and on stdin" + badHistRule,
 		Assumptions: []string{"lines edited in more than one byte and nesting deeper than the 64 KiB line limit allows are not explored"},
 		Run:         c07Run,
 	})
